@@ -471,6 +471,20 @@ pub fn run_history(ctx: &Ctx, sz: &Sizes, hist: u64) {
         Watch::Done(x) => x,
         Watch::Stuck(s) => {
             rep.violation("C02:receiver-stuck", json!({"ctx": base, "why": s}), replay);
+            // senders that are blocked for good would otherwise outlive the batch
+            for c in children.lock().unwrap().iter_mut() {
+                let _ = c.kill();
+                let _ = c.wait();
+            }
+            for e in forked_pids.lock().unwrap().iter() {
+                if !e.1 {
+                    unsafe {
+                        libc::kill(e.0, libc::SIGKILL);
+                        let mut st = 0;
+                        libc::waitpid(e.0, &mut st, 0);
+                    }
+                }
+            }
             return;
         },
         Watch::Unknown(s) => {
@@ -556,5 +570,8 @@ pub fn run(ctx: &Ctx) {
             continue;
         }
         run_history(ctx, &sz, hist);
+        if ctx.rep.nviol.load(Ordering::Relaxed) >= 4 {
+            break; // every further stalled history would cost another grace period
+        }
     }
 }
